@@ -23,8 +23,12 @@ impl<Out> Batcher<Out> {
     fn flush(&mut self)
         ensures ''' + BATCHER_FLUSH_ENSURES + r'''
     { unimplemented!() }
+    // witness that a batcher VALUE was handed to end() (which sends everything it still holds: obligation
+    // end.everything_sent_in_order of unit `batcher`); nothing else can establish it
+    uninterp spec fn ended(b: Self) -> bool;
     #[verifier::external_body]
     fn end(self)
+        ensures Self::ended(self)
     { unimplemented!() }
 }
 '''
